@@ -162,6 +162,91 @@ type qelim struct {
 	skolem map[int][]*smt.Term // quantifier term id -> skolems
 	newSk  []*smt.Term
 	budget int
+	apps   map[string][]*smt.Term // ground applications by function name (E-matching)
+	bmemo  map[int]bool
+}
+
+// collectApps indexes the ground uninterpreted applications of t.
+func (q *qelim) collectApps(t *smt.Term, seen map[int]bool) {
+	if seen[t.ID] {
+		return
+	}
+	seen[t.ID] = true
+	if t.Op == "forall" || t.Op == "exists" {
+		return
+	}
+	if t.Op == "app" {
+		q.apps[t.Name] = append(q.apps[t.Name], t)
+	}
+	for _, a := range t.Args {
+		q.collectApps(a, seen)
+	}
+}
+
+func (q *qelim) hasBound(t *smt.Term) bool {
+	if v, ok := q.bmemo[t.ID]; ok {
+		return v
+	}
+	r := t.Op == "bvar"
+	if !r {
+		for _, a := range t.Args {
+			if q.hasBound(a) {
+				r = true
+				break
+			}
+		}
+	}
+	q.bmemo[t.ID] = r
+	return r
+}
+
+// matches returns instantiation candidates for variable v of a quantifier
+// body: arguments of ground applications that match a pattern f(.., v, ..).
+func (q *qelim) matches(body, v *smt.Term) []*smt.Term {
+	var out []*smt.Term
+	seenOut := map[int]bool{}
+	seen := map[int]bool{}
+	var walk func(t *smt.Term)
+	walk = func(t *smt.Term) {
+		if seen[t.ID] {
+			return
+		}
+		seen[t.ID] = true
+		if t.Op == "app" {
+			for k, a := range t.Args {
+				if a != v {
+					continue
+				}
+				for _, g := range q.apps[t.Name] {
+					if len(g.Args) != len(t.Args) {
+						continue
+					}
+					ok := true
+					for p := range t.Args {
+						if p == k {
+							continue
+						}
+						if q.hasBound(t.Args[p]) {
+							continue // other bound variables: do not constrain
+						}
+						if t.Args[p] != g.Args[p] {
+							ok = false
+							break
+						}
+					}
+					if ok && !seenOut[g.Args[k].ID] && g.Args[k].Sort == v.Sort {
+						seenOut[g.Args[k].ID] = true
+						out = append(out, g.Args[k])
+					}
+				}
+			}
+		}
+		for _, a := range t.Args {
+			walk(a)
+		}
+	}
+	walk(body)
+	return out
 }
 
 func (q *qelim) nnf(t *smt.Term, pos bool) *smt.Term {
@@ -230,7 +315,22 @@ func (q *qelim) nnf(t *smt.Term, pos bool) *smt.Term {
 				parts = append(parts, q.nnf(c.Subst(t.Args[0], m), pos))
 				return
 			}
-			for _, cand := range q.cands {
+			cset := q.cands
+			if extra := q.matches(t.Args[0], t.Vars[i]); len(extra) > 0 {
+				have := map[int]bool{}
+				cset = nil
+				for _, x := range q.cands {
+					have[x.ID] = true
+					cset = append(cset, x)
+				}
+				for _, x := range extra {
+					if !have[x.ID] {
+						have[x.ID] = true
+						cset = append(cset, x)
+					}
+				}
+			}
+			for _, cand := range cset {
 				if cand.Sort != t.Vars[i].Sort {
 					continue
 				}
@@ -389,7 +489,7 @@ func (e *Exec) Emit(o *Obligation) []*smt.Term {
 			}
 		}
 	}
-	q := &qelim{c: c, skolem: map[int][]*smt.Term{}}
+	q := &qelim{c: c, skolem: map[int][]*smt.Term{}, apps: map[string][]*smt.Term{}, bmemo: map[int]bool{}}
 	seen := map[*smt.Term]bool{}
 	for _, x := range append(append(append([]*smt.Term{}, o.Cands...), e.cands...), extCands...) {
 		if !seen[x] && (nodes[x.ID] || x.Op != "sym") {
@@ -398,15 +498,26 @@ func (e *Exec) Emit(o *Obligation) []*smt.Term {
 		}
 	}
 	var out []*smt.Term
-	for round := 0; round < 3; round++ {
+	prevSize := -1
+	for round := 0; round < 4; round++ {
 		q.newSk = nil
-		q.budget = 4000
-		out = out[:0]
+		q.budget = 6000
+		// ground terms known so far: the raw formulas plus the previous round's instances
+		q.apps = map[string][]*smt.Term{}
+		seenA := map[int]bool{}
+		for _, t := range raw {
+			q.collectApps(t, seenA)
+		}
+		for _, t := range out {
+			q.collectApps(t, seenA)
+		}
+		if len(seenA) == prevSize && round > 0 {
+			break
+		}
+		prevSize = len(seenA)
+		out = nil
 		for _, t := range raw {
 			out = append(out, q.nnf(t, true))
-		}
-		if len(q.newSk) == 0 {
-			break
 		}
 		for _, s := range q.newSk {
 			if !seen[s] {
@@ -463,7 +574,14 @@ func (e *Exec) Discharge(quick bool, workers int, keepScripts bool) []*OblResult
 		if os.Getenv("GOVC_DEBUG") != "" {
 			fmt.Fprintf(os.Stderr, "emit %s: %d asserts, %d nodes, %d axioms, %d cands\n", o.Name(), len(asserts), r.Size, len(e.Axioms), len(e.cands))
 		}
-		script := e.C.BuildScript(asserts, "ALL", false, "")
+		logic := "QF_UFBV"
+		for _, a := range asserts {
+			if smt.HasQuant(a) {
+				logic = "ALL"
+				break
+			}
+		}
+		script := e.C.BuildScript(asserts, logic, false, "")
 		if os.Getenv("GOVC_DEBUG") != "" {
 			fmt.Fprintf(os.Stderr, "   script %d bytes\n", len(script))
 		}
